@@ -248,6 +248,11 @@ def _enum_items(ctx):
             for nbs in (1, 3):
                 for t in TERMS[:2]:
                     items.append((ci, False, nbs, p, t))
+        # long payloads: lengths around powers of two (block-wise scanners), ended by a line break
+        if ci in (0, 2, 4):
+            for n in (254, 255, 256, 257, 510, 511, 512, 767, 1023):
+                items.append((ci, False, 0, ('}' * 7 + '{$') * (n // 9) + 'c' * (n % 9), '\n'))
+                items.append((ci, False, 2, 'x' * n, '\n'))
         for c in LOOKALIKE:
             for h in ('{', '}', '\\zq{a}', '$', '\\end{center}', '\\item', ']'):
                 for nbs in (0, 2):
